@@ -311,7 +311,7 @@ class ShiftCmp(Base):
 TBL = [3, 141, 59, 26]
 BTBL = [Bits8(0x11), Bits8(0xEE), Bits8(0x80), Bits8(0x7F)]
 KP = Pst(9, 6)
-STRUCT_BEHAVIORAL = ("StructBuild", "StructReg", "LhsFields", "FreeScalars")     # designs whose blocks touch struct-typed signals / constants (signature class of the Yosys struct findings)
+STRUCT_BEHAVIORAL = ("StructBuild", "StructReg", "LhsFields", "FreeScalars", "ChildStructPorts", "FieldCmpExt")     # MemberConsts has struct CONSTANTS only: checked strictly     # designs whose blocks touch struct-typed signals / constants (signature class of the Yosys struct findings)
 K5 = 5
 KB = Bits8(0xC3)
 
@@ -993,6 +993,179 @@ class FuncCalls(Base):
     @update
     def up_fc_t():
       s.t @= s.a
+
+
+class StructLeaf(Component):
+  """child with struct-typed ports"""
+  def construct(s):
+    s.sp_in = InPort(Pst)
+    s.sp_out = OutPort(Pst)
+    s.k = InPort(Bits4)
+
+    @update
+    def up_sleaf():
+      s.sp_out @= Pst(s.sp_in.y + s.k, s.sp_in.x)
+
+
+@design(lambda st, a, b, sel, en, reset: (None, {"o": ((((b & 0xF) + sel) & 0xF) << 4) | (a & 0xF), "p": (((b >> 4) + 1) & 0xF) ^ (a >> 4)}))
+class ChildStructPorts(Base):
+  """the parent's blocks write a child's struct in-port (whole and by constructor) and read fields of a child's struct out-port"""
+  def construct(s):
+    s.ports()
+    s.o = OutPort(Bits8)
+    s.p = OutPort(Bits4)
+    s.c = [StructLeaf() for _ in range(2)]
+    s.c[0].k //= lambda: zext(s.sel, 4)
+    s.c[1].k //= 1
+
+    @update
+    def up_csp1():
+      s.c[0].sp_in @= Pst(s.a[0:4], s.b[0:4])
+      s.c[1].sp_in @= Pst(s.a[4:8], s.b[4:8])
+
+    @update
+    def up_csp2():
+      s.o @= concat(s.c[0].sp_out.x, s.c[0].sp_out.y)
+      s.p @= s.c[1].sp_out.x ^ s.c[1].sp_out.y
+
+
+@design(lambda st, a, b, sel, en, reset: (None, {"o": (a + 5) & M8 if en else (b ^ 0xC3), "p": (0x21 if sel & 1 else 0x43)}))
+class MemberConsts(Base):
+  """constants stored as attributes of the component (not closure variables): Bits, int-valued Bits list, bitstruct"""
+  def construct(s):
+    s.ports()
+    s.o = OutPort(Bits8)
+    s.p = OutPort(Bits8)
+    s.K5 = Bits8(5)
+    s.KX = Bits8(0xC3)
+    s.KS = [Pst(4, 3), Pst(2, 1)]
+
+    @update
+    def up_mc():
+      if s.en:
+        s.o @= s.a + s.K5
+      else:
+        s.o @= s.b ^ s.KX
+      s.p @= concat(s.KS[s.sel[0]].x, s.KS[s.sel[0]].y)
+
+
+def _idx_arith_ref(st, a, b, sel, en, reset):
+  x = [(a >> (2 * i)) & 3 for i in range(4)]
+  o = 0
+  for i in range(3): o |= (x[i + 1] ^ (i & 3)) << (2 * i)
+  o |= x[0] << 6
+  q = 0
+  for i in range(4): q |= x[3 - i] << (2 * i)
+  return None, {"o": o, "q": q, "r": ((b >> 4) & 0xF) | ((b & 0xF) << 4)}
+
+
+@design(_idx_arith_ref)
+class IndexArith(Base):
+  """index arithmetic on loop variables: x[i+1], x[n-1-i], part selects [4*i : 4*i+4]"""
+  def construct(s):
+    s.ports()
+    s.o = OutPort(Bits8)
+    s.q = OutPort(Bits8)
+    s.r = OutPort(Bits8)
+    s.x = [Wire(Bits2) for _ in range(4)]
+
+    @update
+    def up_ia0():
+      for i in range(4):
+        s.x[i] @= s.a[2 * i:2 * i + 2]
+
+    @update
+    def up_ia1():
+      for i in range(3):
+        s.o[2 * i:2 * i + 2] @= s.x[i + 1] ^ i
+      s.o[6:8] @= s.x[0]
+      for i in range(4):
+        s.q[2 * i:2 * i + 2] @= s.x[3 - i]
+      for i in range(2):
+        s.r[4 * i:4 * i + 4] @= s.b[4 * (1 - i):4 * (1 - i) + 4]
+
+
+def _hold_ref(st, a, b, sel, en, reset):
+  r = list(st or [0, 0, 0])
+  if reset: r = [0, 0, 0]
+  else:
+    if sel == 0: r[0] = a
+    elif sel == 1:
+      r[1] = b
+      if en: r[0] = (r[0] + 1) & M8          # r[0] read is the OLD value: evaluated below on a copy
+    elif sel == 2 and en: r[2] = a ^ b
+  return r, {"o": r[0], "p": r[1], "q": r[2]}
+
+
+def _hold_ref2(st, a, b, sel, en, reset):
+  old = list(st or [0, 0, 0])
+  r = list(old)
+  if reset: r = [0, 0, 0]
+  elif sel == 0: r[0] = a
+  elif sel == 1:
+    r[1] = b
+    if en: r[0] = (old[0] + 1) & M8
+  elif sel == 2 and en: r[2] = a ^ b
+  return r, {"o": r[0], "p": r[1], "q": r[2]}
+
+
+@design(_hold_ref2)
+class PartialFF(Base):
+  """update_ff with if / elif arms that assign different registers: every register not assigned in a cycle holds its value"""
+  def construct(s):
+    s.ports()
+    s.o = OutPort(Bits8)
+    s.p = OutPort(Bits8)
+    s.q = OutPort(Bits8)
+    s.r0 = Wire(Bits8)
+    s.r1 = Wire(Bits8)
+    s.r2 = Wire(Bits8)
+
+    @update_ff
+    def up_pff():
+      if s.reset:
+        s.r0 <<= 0
+        s.r1 <<= 0
+        s.r2 <<= 0
+      elif s.sel == 0:
+        s.r0 <<= s.a
+      elif s.sel == 1:
+        s.r1 <<= s.b
+        if s.en:
+          s.r0 <<= s.r0 + 1
+      elif (s.sel == 2) & s.en:
+        s.r2 <<= s.a ^ s.b
+
+    s.o //= s.r0
+    s.p //= s.r1
+    s.q //= s.r2
+
+
+@design(lambda st, a, b, sel, en, reset: (None, {"o": (1 if (a & 0xF) == (b & 0xF) else 0) | ((1 if (a >> 4) < (b >> 4) else 0) << 1) | ((1 if a == b else 0) << 2),
+                                                "p": ((a & 0xF) | 0xF0) if (a & 8) else (a & 0xF), "q": (a >> 2) & 3 if en else (b >> 6) & 3}))
+class FieldCmpExt(Base):
+  """comparisons of struct fields, sext of a slice and of a field, trunc of a shifted value"""
+  def construct(s):
+    s.ports()
+    s.o = OutPort(Bits3)
+    s.p = OutPort(Bits8)
+    s.q = OutPort(Bits2)
+    s.u = Wire(Pst)
+    s.v = Wire(Pst)
+
+    @update
+    def up_fce1():
+      s.u @= Pst(s.a[4:8], s.a[0:4])
+      s.v @= Pst(s.b[4:8], s.b[0:4])
+
+    @update
+    def up_fce2():
+      s.o @= concat(s.a == s.b, s.u.x < s.v.x, s.u.y == s.v.y)
+      s.p @= sext(s.u.y, 8)
+      if s.en:
+        s.q @= trunc(s.a >> 2, 2)
+      else:
+        s.q @= trunc(s.b >> 6, 2)
 
 
 def sequences():
